@@ -601,6 +601,27 @@ Definition apply_fill (s : state) (app pair : Z) (f : Z * Z * Z * Z) : outcome s
       esc_out s3 app pair (User (o_owner o)) (o_ddenom o) recv
   end.
 
+(* ------------------------------------------------------------------------------------------ *)
+(* what the matching engine is given for a stored order: types.NewUserOrder (types/order.go:34-61), called by
+   ExecuteMatching for every order it puts on the book.  A FRESH amm.BaseOrder (nothing paid, nothing
+   received) whose amount is min(open amount, floor(REMAINING offer coin / price)) for a buy (SafeMath: the
+   open amount when the quotient overflows) and the open amount for a sell, and whose offer coin bound is
+   the REMAINING offer coin - so a partially matched order carried over from an earlier batch is bounded by
+   what it has left, not by its original offer *)
+Record amm_in := mkAmmIn { ai_buy : bool; ai_price : Z; ai_amt : Z; ai_offer : Z; ai_batch : Z; ai_key : Z }.
+Definition user_order_amm (o : order) : amm_in :=
+  let amt := if o_buy o then
+               match (if o_price o =? 0 then None else chk_dec (dquo_trunc (dec_of_int (o_rem o)) (o_price o))) with
+               | Some q => match dtrunc_int_c q with Some t => Z.min (o_open o) t | None => o_open o end
+               | None => o_open o
+               end
+             else o_open o in
+  mkAmmIn (o_buy o) (o_price o) amt (o_rem o) (o_batch o) (o_id o).
+
+(* ExecuteMatching's first loop (swap.go:613-636): the stored orders of the pair that are put on the book *)
+Definition on_book (now : Z) (o : order) : bool :=
+  is_live (o_status o) && negb (negb (o_status o =? 1) && (o_expire o <=? now)).
+
 (* pool orders: the coins the pools pay enter the escrow first (first bulk send), the coins they
    receive leave it in the second bulk send; only each pool's net reserve change is ENV.
    [credit = true]: the components that flow reserve -> escrow; [false]: escrow -> reserve *)
@@ -777,6 +798,46 @@ Definition withdraw_req (s : state) (app owner pid pc : Z) : outcome (state * wd
     Ok (set_wds (set_pools s2 (ins_pool pl' (pools s2))) (wds s2 ++ [r]), r)
   end.
 
+(* ---- the coins a pool message names (ValidateMsgDeposit pool.go:331-362, ValidateMsgWithdraw pool.go:434-454,
+   ValidateMsgFarm / ValidateMsgUnfarm rewards.go:300-323 / 372-395, ValidateMsgUnfarmAndWithdraw pool.go:893-917).
+   A message carries denoms; the request / farming code below it works on the pool's own denoms, which is what
+   these checks establish: deposit coins are coins of the pool's pair, and the pool coin is the pool's own
+   "pool<app>-<pool>" - a pool of ANOTHER app with the same pool id has a different pool coin. *)
+Definition coin_amt (cs : list (Z * Z)) (d : Z) : Z := zsum (map snd (filter (fun c => fst c =? d) cs)).   (* Coins.AmountOf *)
+Definition coins_valid (cs : list (Z * Z)) : bool :=          (* Coins.Validate: positive amounts, no duplicate denom *)
+  forallb (fun c => snd c >? 0) cs && nodupz (map fst cs).
+
+(* MsgDeposit / MsgDepositAndFarm: ValidateBasic, then app, pool, not disabled, every coin is of the pair;
+   result: the quote-coin and base-coin amounts *)
+Definition deposit_coins (s : state) (app pid : Z) (cs : list (Z * Z)) : outcome (Z * Z) :=
+  if (pid =? 0) || negb (coins_valid cs) || (zlen cs =? 0) || (zlen cs >? 2) then Err 9 else
+  if negb (has_app s app) then Err 1 else
+  match find_pool app pid (pools s) with
+  | None => Err 3
+  | Some pl =>
+    if pl_disabled pl then Err 20 else
+    match pool_pair s pl with
+    | None => Err 26                                        (* zero-valued pair: no denom matches *)
+    | Some pr =>
+      if existsb (fun c => negb (fst c =? p_base pr) && negb (fst c =? p_quote pr)) cs then Err 26
+      else Ok (coin_amt cs (p_quote pr), coin_amt cs (p_base pr))
+    end
+  end.
+Definition deposit_msg (s : state) (app owner pid : Z) (cs : list (Z * Z)) : outcome (state * depreq) :=
+  do xy <- deposit_coins s app pid cs; deposit_req s app owner pid (fst xy) (snd xy).
+
+(* app, pool, (not disabled), msg coin denom = pool.PoolCoinDenom *)
+Definition pool_coin_check (s : state) (app pid dn : Z) (enabled_only : bool) : outcome unit :=
+  if negb (has_app s app) then Err 1 else
+  match find_pool app pid (pools s) with
+  | None => Err 3
+  | Some pl => if enabled_only && pl_disabled pl then Err 20
+               else if dn =? pool_denom app pid then Ok tt else Err 25
+  end.
+Definition withdraw_msg (s : state) (app owner pid dn pc : Z) : outcome (state * wdreq) :=
+  if (pid =? 0) || (pc <=? 0) then Err 9 else
+  do u <- pool_coin_check s app pid dn true; withdraw_req s app owner pid pc.
+
 Definition dkey (r : depreq) : key3 := (d_app r, d_pool r, d_id r).
 Definition wkey (r : wdreq) : key3 := (w_app r, w_pool r, w_id r).
 Fixpoint find_dep (k : key3) (l : list depreq) : option depreq :=
@@ -941,6 +1002,13 @@ Definition unfarm (s : state) (app owner pid amt : Z) : outcome state :=
     end
   end.
 
+Definition farm_msg (s : state) (app owner pid dn amt now : Z) : outcome state :=
+  if (pid =? 0) || (app =? 0) || (amt <=? 0) then Err 9 else
+  do u <- pool_coin_check s app pid dn false; farm s app owner pid amt now.
+Definition unfarm_msg (s : state) (app owner pid dn amt : Z) : outcome state :=
+  if (pid =? 0) || (app =? 0) || (amt <=? 0) then Err 9 else
+  do u <- pool_coin_check s app pid dn false; unfarm s app owner pid amt.
+
 (* ProcessQueuedFarmers (rewards.go:496-527) for one queued farmer *)
 Definition process_qf (now dur : Z) (s : state) (q : qfarmer) : state :=
   let keep := filter (fun c => now <? snd c + dur) (q_coins q) in
@@ -1014,6 +1082,22 @@ Definition end_block (height now : Z) (envs : list app_env) (s : state) : state 
                else if height mod pr_batch P =? 0 then atomic s (end_app now s (find_app_env app envs)) else s)
             (apps s) s.
 
+(* ghost of [end_block]: per registered app, what became of its batch - 1 executed (the writes were kept),
+   0 rolled back (an error or a recovered panic inside ExecuteRequests: nothing of the app changed and its
+   orders / requests stay), 2 not due at this height, 3 modulo by a zero batch size (recovered panic) *)
+Definition end_block_trace (height now : Z) (envs : list app_env) (s : state) : state * list (Z * Z) :=
+  fold_left (fun (st : state * list (Z * Z)) ap =>
+               let '(s, tr) := st in
+               let '(app, P) := ap in
+               if (pr_batch P =? 0) then (s, tr ++ [(app, 3)])
+               else if height mod pr_batch P =? 0 then
+                 match end_app now s (find_app_env app envs) with
+                 | Ok s' => (s', tr ++ [(app, 1)])
+                 | _ => (s, tr ++ [(app, 0)])
+                 end
+               else (s, tr ++ [(app, 2)]))
+            (apps s) (s, []).
+
 (* DeleteOutdatedRequests (batch.go:58-78) *)
 Definition begin_app (app : Z) (s : state) : state :=
   set_orders (set_wds (set_deps s (filter (fun r => negb ((d_app r =? app) && negb (d_status r =? 1))) (deps s)))
@@ -1037,12 +1121,12 @@ Inductive op :=
 | OCancel (app owner pair id : Z)
 | OCancelAll (app owner : Z) (pids : list Z)
 | OCancelMM (app owner pair : Z)
-| ODeposit (app owner pid x y : Z)
-| OWithdraw (app owner pid pc : Z)
-| OFarm (app owner pid amt now : Z)
-| OUnfarm (app owner pid amt : Z)
-| ODepositAndFarm (app owner pid x y now ax ay pc : Z)
-| OUnfarmAndWithdraw (app owner pid pc x y : Z)
+| ODeposit (app owner pid : Z) (cs : list (Z * Z))            (* coins as (denom, amount) *)
+| OWithdraw (app owner pid dn pc : Z)                         (* [dn] = denom of the pool coin the message carries *)
+| OFarm (app owner pid dn amt now : Z)
+| OUnfarm (app owner pid dn amt : Z)
+| ODepositAndFarm (app owner pid : Z) (cs : list (Z * Z)) (now ax ay pc : Z)
+| OUnfarmAndWithdraw (app owner pid dn pc x y : Z)
 | OBegin
 | OEnd (height now : Z) (envs : list app_env).
 
@@ -1064,6 +1148,12 @@ Definition unfarm_and_withdraw (s : state) (app owner pid pc x y : Z) : outcome 
   let '(s2, r) := sr in
   exec_withdraw s2 r x y.
 
+Definition deposit_and_farm_msg (s : state) (app owner pid : Z) (cs : list (Z * Z)) (now ax ay pc : Z) : outcome state :=
+  do xy <- deposit_coins s app pid cs; deposit_and_farm s app owner pid (fst xy) (snd xy) now ax ay pc.
+Definition unfarm_and_withdraw_msg (s : state) (app owner pid dn pc x y : Z) : outcome state :=
+  if (pid =? 0) || (app =? 0) || (pc <=? 0) then Err 9 else
+  do u <- pool_coin_check s app pid dn false; unfarm_and_withdraw s app owner pid pc x y.
+
 Definition step (s : state) (o : op) : outcome state :=
   match o with
   | OAddApp app P => if has_app s app then Err 30      (* an app is registered once; parameter updates are not modelled *)
@@ -1079,12 +1169,12 @@ Definition step (s : state) (o : op) : outcome state :=
   | OCancel app owner pair id => cancel_order s app owner pair id
   | OCancelAll app owner pids => cancel_all s app owner pids
   | OCancelMM app owner pair => cancel_mm s app owner pair
-  | ODeposit app owner pid x y => do sr <- deposit_req s app owner pid x y; Ok (fst sr)
-  | OWithdraw app owner pid pc => do sr <- withdraw_req s app owner pid pc; Ok (fst sr)
-  | OFarm app owner pid amt now => farm s app owner pid amt now
-  | OUnfarm app owner pid amt => unfarm s app owner pid amt
-  | ODepositAndFarm app owner pid x y now ax ay pc => deposit_and_farm s app owner pid x y now ax ay pc
-  | OUnfarmAndWithdraw app owner pid pc x y => unfarm_and_withdraw s app owner pid pc x y
+  | ODeposit app owner pid cs => do sr <- deposit_msg s app owner pid cs; Ok (fst sr)
+  | OWithdraw app owner pid dn pc => do sr <- withdraw_msg s app owner pid dn pc; Ok (fst sr)
+  | OFarm app owner pid dn amt now => farm_msg s app owner pid dn amt now
+  | OUnfarm app owner pid dn amt => unfarm_msg s app owner pid dn amt
+  | ODepositAndFarm app owner pid cs now ax ay pc => deposit_and_farm_msg s app owner pid cs now ax ay pc
+  | OUnfarmAndWithdraw app owner pid dn pc x y => unfarm_and_withdraw_msg s app owner pid dn pc x y
   | OBegin => Ok (begin_block s)
   | OEnd h now envs => Ok (end_block h now envs s)
   end.
@@ -1139,6 +1229,31 @@ Definition batch_quote_net (buy_of : Z -> bool) (b : batch_env) : Z :=
   zsum (map (fun f => let '(id, _, paid, recv) := f in if buy_of id then paid else - recv) (b_fills b))
   - zsum (map (fun f => let '(_, dq, _) := f in dq) (b_pools b)) - b_dust b.
 Definition kf_C05_1_via_fills (base_net : Z) : bool := negb (base_net =? 0).
+
+(* C05 through the keeper / C07: one batch's fill of a stored order (the record BEFORE the batch), judged
+   against what the engine is given for it: the matched amount is within the amount handed over (hence
+   within the open amount), the payment is within the REMAINING offer coin, a sell pays what it sells *)
+Definition holds_C05_life (o : order) (matched paid recv : Z) : bool :=
+  let a := user_order_amm o in
+  (0 <=? matched) && (matched <=? ai_amt a) && (matched <=? o_open o) && (0 <=? paid) && (paid <=? ai_offer a)
+  && (0 <=? recv) && (o_buy o || (paid =? matched)).
+(* a stored record at any point of its life: 0 <= remaining <= offer (total paid <= offer coin), 0 <= open <= amount *)
+Definition holds_C07_life (o : order) : bool :=
+  (0 <=? o_rem o) && (o_rem o <=? o_offer o) && (0 <=? o_open o) && (o_open o <=? o_amt o) && (0 <=? o_recv o).
+(* two consecutive observations of the same stored order: remaining offer coin and open amount never grow,
+   the received coin never shrinks, the immutable fields stay *)
+Definition holds_C07_life_step (o o' : order) : bool :=
+  (o_rem o' <=? o_rem o) && (o_open o' <=? o_open o) && (o_recv o <=? o_recv o') &&
+  (o_offer o' =? o_offer o) && (o_amt o' =? o_amt o) && (o_price o' =? o_price o) && Bool.eqb (o_buy o') (o_buy o).
+
+(* known finding C05-F2 (C05-F1 through the keeper): the engine's fills of a batch of the app do not conserve the
+   base coin of a pair ([base_nets] = [batch_base_net] of the engine's batches of the app: those of the current
+   block and those applied at earlier blocks).  When the pair escrow cannot cover the deficit - at once, because
+   ApplyMatchResult's bulk send fails, or later, when the refund of an expiring / completed order of that pair
+   fails - ExecuteRequests panics on the error and ApplyFuncIfNoError rolls the WHOLE batch of the app back, at
+   that block and at every following one: the same book is matched and the same order expired again (expiry is
+   part of the rolled-back batch, and an order cannot be cancelled in its placement batch) *)
+Definition kf_C05_2_stall (base_nets : list Z) : bool := existsb (fun n => negb (n =? 0)) base_nets.
 
 (* C04, on observed balances and records *)
 Definition holds_C04_escrow (balance required : Z) : bool := required <=? balance.
